@@ -23,6 +23,8 @@ func init() {
 		ruleF1(c, "C12.Z8")
 		ruleF10(c, "C12.Z9")
 		ruleZ10(c, "C12.Z10")
+		ruleZ11(c, "C12.Z11")
+		ruleZ12(c, "C12.Z12")
 	}
 }
 
@@ -901,4 +903,130 @@ func sameIndexExpr(fn *ssa.Function, a, b ssa.Value) bool {
 		}
 	}
 	return true
+}
+
+// ruleZ11: a write that fills part of a block changes exactly the bytes it
+// was asked to write.  The part of the last block behind the end of the file
+// must stay zero (it becomes file content when the file grows): a bulk copy
+// into a journal buffer is bounded by the per-block byte count - by slicing the
+// source or the destination - and an element loop is bounded by it.
+func ruleZ11(c *Ctx, id string) {
+	V, P, R := c.V, c.P, c.R
+	R.Rule(id, "partial-block writes are bounded: in Inode.Write every bulk copy into a buffer read through the journal has a source or destination slice with an explicit upper bound", 0)
+	w := V.InodeWrite
+	if w == nil {
+		return
+	}
+	n := 0
+	for _, sc := range scopesOf(w) {
+		for _, b := range sc.Fn.Blocks {
+			for _, in := range b.Instrs {
+				call, ok := in.(*ssa.Call)
+				if !ok {
+					continue
+				}
+				bi, isB := call.Call.Value.(*ssa.Builtin)
+				if !isB || bi.Name() != "copy" || len(call.Call.Args) != 2 {
+					continue
+				}
+				// destination: (a slice of) the Data of a journal buffer
+				dst := call.Call.Args[0]
+				intoBuf := false
+				for src := range bwdSources(dst) {
+					if nm, fl, _, _ := loadedField(src); nm != nil && nm.Obj().Name() == "Buf" && fl == "Data" {
+						intoBuf = true
+					}
+				}
+				if !intoBuf {
+					continue
+				}
+				n++
+				bounded := false
+				for _, a := range call.Call.Args {
+					if sl, isS := stripConv(a).(*ssa.Slice); isS && sl.High != nil {
+						bounded = true
+					}
+				}
+				R.Check(bounded, id, fmt.Sprintf("%s|copy#%d into a block is bounded", FuncName(ownerOf(sc.Fn)), n), P.Pos(call.Pos()), "the copy into the block is limited to the bytes of this block (source or destination sliced with an upper bound)", "explicit bound", "the copy takes everything left in the caller's buffer: bytes beyond the count of the request are stored behind the end of the file and become file content when it grows")
+			}
+		}
+	}
+	if n == 0 {
+		R.Pass(id, "inode.Write|no bulk copy into a block", P.Pos(w.Pos()), "partial blocks are written byte by byte under a loop bound (C11.V4 / C12.Z4)", "no copy() into a journal buffer")
+	}
+}
+
+// ruleZ12: what Inode.Read returns is memory of that call.  The reply is
+// encoded after the inode lock is released; a result buffer that lives in the
+// inode (or anywhere two calls can reach) is overwritten by the next READ - a
+// hole then reads as another READ's data.
+func ruleZ12(c *Ctx, id string) {
+	V, P, R := c.V, c.P, c.R
+	R.Rule(id, "Inode.Read returns memory of its own call: the slice it returns is built from nil / make / append in the call, never from a field or a package-level variable", 1)
+	f := V.InodeRead
+	if f == nil {
+		return
+	}
+	n := 0
+	for _, b := range f.Blocks {
+		r, ok := b.Instrs[len(b.Instrs)-1].(*ssa.Return)
+		if !ok {
+			continue
+		}
+		for _, res := range r.Results {
+			if _, isS := res.Type().Underlying().(*types.Slice); !isS {
+				continue
+			}
+			n++
+			bad := ""
+			for src := range bwdSources(res) {
+				// follow append's first argument (the slice being extended)
+				switch x := src.(type) {
+				case *ssa.UnOp:
+					if x.Op == token.MUL {
+						if _, isF := x.X.(*ssa.FieldAddr); isF {
+							bad = "a field (" + fieldPath(x.X) + ")"
+						}
+						if _, isG := x.X.(*ssa.Global); isG {
+							bad = "a package-level variable"
+						}
+					}
+				case *ssa.Parameter:
+					bad = "a parameter"
+				}
+			}
+			// bwdSources does not look through append: do it here
+			var walk func(v ssa.Value, d int)
+			seen := map[ssa.Value]bool{}
+			walk = func(v ssa.Value, d int) {
+				if d > 8 || seen[v] {
+					return
+				}
+				seen[v] = true
+				for src := range bwdSources(v) {
+					if cl, isC := src.(*ssa.Call); isC {
+						if bi, isB := cl.Call.Value.(*ssa.Builtin); isB && bi.Name() == "append" {
+							walk(cl.Call.Args[0], d+1)
+						}
+					}
+					if sl, isS := src.(*ssa.Slice); isS {
+						walk(sl.X, d+1)
+					}
+					if u, isU := src.(*ssa.UnOp); isU && u.Op == token.MUL {
+						if _, isF := u.X.(*ssa.FieldAddr); isF {
+							bad = "a field (" + fieldPath(u.X) + ")"
+						}
+						if _, isG := u.X.(*ssa.Global); isG {
+							bad = "a package-level variable"
+						}
+					}
+				}
+			}
+			walk(res, 0)
+			R.Check(bad == "", id, fmt.Sprintf("inode.Read|result#%d is the call's own memory", n), P.Pos(r.Pos()), "the returned slice grows from nil or make by append inside the call", "no field, global or parameter among its origins", "the returned slice comes from "+bad+": two READs of the file share the buffer, the second overwrites the reply of the first before it is encoded")
+		}
+	}
+	if n == 0 {
+		R.Fail(id, "inode.Read|result", P.Pos(f.Pos()), "Inode.Read returns a slice", "no slice result found")
+	}
 }
